@@ -113,6 +113,7 @@ type machine struct {
 	mutexes     map[*value]*mutexState
 	wgs         map[*value]*wgState
 	pools       map[*value][]value
+	poolVC      map[*value][]vclock
 	tickers     []*tickerState
 	chanCount   int
 	mayBeFull   map[*chanObj]bool
@@ -1055,6 +1056,37 @@ type chanObj struct {
 	closed  bool
 	closeVC vclock
 	sendq   []*sendWaiter
+	recvq   []*recvWaiter // threads blocked in a receive (plain or select) on this channel
+}
+
+// recvWaiter lets a select with a send case on an unbuffered channel complete a rendezvous with a blocked receiver.
+type recvWaiter struct {
+	th      *thread
+	ch      *chanObj
+	caseIdx int
+	done    bool
+	v       value
+	vc      vclock
+}
+
+func (c *chanObj) addRecvWaiter(w *recvWaiter) { c.recvq = append(c.recvq, w) }
+
+func (c *chanObj) dropRecvWaiter(w *recvWaiter) {
+	for i, x := range c.recvq {
+		if x == w {
+			c.recvq = append(c.recvq[:i:i], c.recvq[i+1:]...)
+			return
+		}
+	}
+}
+
+func (c *chanObj) waitingReceiver() *recvWaiter {
+	for _, w := range c.recvq {
+		if !w.done {
+			return w
+		}
+	}
+	return nil
 }
 
 func (m *machine) newChan(n int) *chanObj {
@@ -1143,14 +1175,26 @@ func (m *machine) chanRecv(th *thread, c *chanObj, commaOk bool, resT types.Type
 	if c == nil {
 		m.sched(th, "receive on nil channel", func() bool { return false })
 	}
-	m.sched(th, fmt.Sprintf("receive on chan#%d", c.id), c.canRecv)
+	w := &recvWaiter{th: th, ch: c}
+	c.addRecvWaiter(w)
+	m.sched(th, fmt.Sprintf("receive on chan#%d", c.id), func() bool { return w.done || c.canRecv() })
+	c.dropRecvWaiter(w)
 	var elemT types.Type
 	if commaOk {
 		elemT = resT.(*types.Tuple).At(0).Type()
 	} else {
 		elemT = resT
 	}
-	v, ok := m.recvNow(th, c, elemT)
+	var v value
+	ok := true
+	if w.done {
+		v = w.v
+		if m.race != nil {
+			m.race.acquire(th, w.vc)
+		}
+	} else {
+		v, ok = m.recvNow(th, c, elemT)
+	}
 	if commaOk {
 		return tuple{v, mkBool(ok)}
 	}
@@ -1183,9 +1227,6 @@ func (m *machine) doSelect(fr *frame, instr *ssa.Select) value {
 		if s.Dir == types.SendOnly {
 			states[i].send = true
 			states[i].v = fr.get(s.Send)
-			if states[i].ch != nil && states[i].ch.cap == 0 {
-				unsupported("select with send on unbuffered channel")
-			}
 		}
 	}
 	readyIdx := func() []int {
@@ -1195,8 +1236,12 @@ func (m *machine) doSelect(fr *frame, instr *ssa.Select) value {
 				continue
 			}
 			if s.send {
-				if s.ch.canSendBuffered() {
-					r = append(r, i)
+				if s.ch.cap > 0 {
+					if s.ch.canSendBuffered() {
+						r = append(r, i)
+					}
+				} else if s.ch.closed || s.ch.waitingReceiver() != nil {
+					r = append(r, i) // rendezvous with a blocked receiver (or panic on a closed channel)
 				}
 			} else if s.ch.canRecv() {
 				r = append(r, i)
@@ -1204,25 +1249,40 @@ func (m *machine) doSelect(fr *frame, instr *ssa.Select) value {
 		}
 		return r
 	}
-	if instr.Blocking {
-		var desc []string
-		for _, s := range states {
-			if s.ch != nil {
-				desc = append(desc, fmt.Sprintf("chan#%d", s.ch.id))
+	var waiters []*recvWaiter
+	delivered := func() *recvWaiter {
+		for _, w := range waiters {
+			if w.done {
+				return w
 			}
 		}
-		m.sched(th, "select on "+strings.Join(desc, ","), func() bool { return len(readyIdx()) > 0 })
+		return nil
+	}
+	if instr.Blocking {
+		var desc []string
+		for i, s := range states {
+			if s.ch != nil {
+				desc = append(desc, fmt.Sprintf("chan#%d", s.ch.id))
+				if !s.send {
+					w := &recvWaiter{th: th, ch: s.ch, caseIdx: i}
+					s.ch.addRecvWaiter(w)
+					waiters = append(waiters, w)
+				}
+			}
+		}
+		m.sched(th, "select on "+strings.Join(desc, ","), func() bool { return delivered() != nil || len(readyIdx()) > 0 })
+		for _, w := range waiters {
+			w.ch.dropRecvWaiter(w)
+		}
 	} else {
 		m.sched(th, "select (non-blocking)", func() bool { return true })
 	}
-	ready := readyIdx()
 	chosen := -1
-	// a send case on a channel marked MayBeFull may find the channel full
-	if len(ready) > 0 {
-		var opts []int
-		for _, i := range ready {
-			opts = append(opts, i)
-		}
+	var got *recvWaiter
+	if got = delivered(); got != nil {
+		chosen = got.caseIdx
+	} else if ready := readyIdx(); len(ready) > 0 {
+		opts := append([]int{}, ready...)
 		if !instr.Blocking {
 			for _, i := range ready {
 				if states[i].send && m.mayBeFull[states[i].ch] {
@@ -1238,9 +1298,17 @@ func (m *machine) doSelect(fr *frame, instr *ssa.Select) value {
 		if s.Dir == types.RecvOnly {
 			elemT := s.Chan.Type().Underlying().(*types.Chan).Elem()
 			if i == chosen {
-				v, ok := m.recvNow(th, states[i].ch, elemT)
-				r = append(r, v)
-				r[1] = mkBool(ok)
+				if got != nil {
+					r = append(r, got.v)
+					r[1] = trueT
+					if m.race != nil {
+						m.race.acquire(th, got.vc)
+					}
+				} else {
+					v, ok := m.recvNow(th, states[i].ch, elemT)
+					r = append(r, v)
+					r[1] = mkBool(ok)
+				}
 			} else {
 				r = append(r, zero(elemT))
 			}
@@ -1251,9 +1319,18 @@ func (m *machine) doSelect(fr *frame, instr *ssa.Select) value {
 		if c.closed {
 			panic(targetPanic{iface{t: m.eng.runtimeErrorString, v: "send on closed channel"}})
 		}
-		c.buf = append(c.buf, copyVal(states[chosen].v))
-		if m.race != nil {
-			c.bufVC = append(c.bufVC, m.race.release(th))
+		if c.cap > 0 {
+			c.buf = append(c.buf, copyVal(states[chosen].v))
+			if m.race != nil {
+				c.bufVC = append(c.bufVC, m.race.release(th))
+			}
+		} else {
+			w := c.waitingReceiver()
+			w.done = true
+			w.v = copyVal(states[chosen].v)
+			if m.race != nil {
+				w.vc = m.race.release(th)
+			}
 		}
 	}
 	return r
@@ -1262,6 +1339,10 @@ func (m *machine) doSelect(fr *frame, instr *ssa.Select) value {
 // onAccess is the data-race monitor hook (C19).
 func (m *machine) onAccess(th *thread, loc interface{}, write bool) {
 	if m.race != nil {
+		// the harness's own ghost bookkeeping (histories, ledgers) is not part of the program under test
+		if th.fn != nil && m.eng.isHarnessFn(th.fn) {
+			return
+		}
 		m.race.access(th, loc, write, false)
 	}
 }
